@@ -1499,7 +1499,11 @@ void process_definition_block(mmd_engine * e, token * block) {
 
 	token * label = block->child;
 
-	if (label->type == BLOCK_PARA) {
+	// The definition's content usually starts with a paragraph, but it may be a
+	// Setext heading or a definition list -- the label is its first token either way
+	while (label->child &&
+			(label->type == BLOCK_PARA || label->type == BLOCK_SETEXT_1 || label->type == BLOCK_SETEXT_2 ||
+			 label->type == BLOCK_DEFLIST || label->type == BLOCK_TERM)) {
 		label = label->child;
 	}
 
